@@ -129,7 +129,7 @@ def build_ops(seed: int, docs: dict[str, dict], tier: str, out_mode: str = "expl
         for _ in range(r.choice([1, 1, 2])):
             ops.append({"op": "USER", "action": r.choice(["mkdir-empty", "dotfiles", "write"]), "where": r.choice(["root", "subdir"]), "n": r.randrange(1000)})
         precreated = True
-    if out_mode != "derived" and not precreated and r.random() < 0.08:
+    if out_mode != "derived" and not precreated and r.random() < (0.6 if out_mode == "explicit-nested" else 0.08):
         # two generate commands WITHOUT --overwrite started at the same time against the location that does not exist yet
         # (two CI jobs, a double click): their file-system calls are interleaved by a seeded scheduler
         da = r.choice(names)
@@ -176,6 +176,8 @@ def run_seed(args: dict, sandbox: str) -> dict:
     docs, hostile, _title = make_pool(seed)
     r = rng.stream(seed, "world")
     out_mode = r.choice(["explicit", "explicit", "explicit-relative", "derived"])
+    if r.random() < 0.06:
+        out_mode = "explicit-nested"  # --output-path below a parent directory that does not exist (yet)
     if out_mode == "derived":
         # one output location per history: a derived location is a function of the title
         for d in docs.values():
@@ -232,10 +234,14 @@ class World:
             self._w(os.path.join(self.templates_dir, "README.md.jinja"), b"# custom readme for {{ project_name }}\n")
             self._w(os.path.join(self.templates_dir, ".gitignore.jinja"), b"custom-ignored/\n")
         self.gen_counter = 0
-        self.explicit = spec["out_mode"] in ("explicit", "explicit-relative")
+        self.explicit = spec["out_mode"] in ("explicit", "explicit-relative", "explicit-nested")
         # a relative --output-path is resolved against the working directory (P/work): ../out/ == P/out
         self.out_arg = None if spec["out_mode"] != "explicit-relative" else "../out/"
         self.O: str | None = os.path.join(self.P, "out") if self.explicit else None
+        if spec["out_mode"] == "explicit-nested":
+            # the parents of the location do not exist: whether a generate command creates them or fails is its own business
+            # (ancestor directories of the location are not "outside" it), but two racing commands still may not both win
+            self.O = os.path.join(self.P, "new-parent", "deeper", "out")
         self.user_files: dict[str, bytes] = {}
         self.user_dirs: set[str] = set()  # directories the user created stay, also once emptied
         self.expected_known = False  # tree(O) == fresh ∪ user files is currently expected
@@ -268,8 +274,19 @@ class World:
         snap = self.genrun.snapshot(self.P)
         if self.O is not None:
             rel = os.path.relpath(self.O, self.P)
-            snap = {k: v for k, v in snap.items() if not (k == rel or k.startswith(rel + os.sep))}
+            anc = self._ancestors()
+            snap = {k: v for k, v in snap.items() if not (k == rel or k.startswith(rel + os.sep) or k in anc)}
         return snap
+
+    def _ancestors(self) -> set[str]:
+        """proper ancestors of the output location below the watched parent (only non-empty for a nested location)"""
+        out: set[str] = set()
+        if self.O is not None and self.spec.get("out_mode") == "explicit-nested":
+            d = os.path.dirname(os.path.relpath(self.O, self.P))
+            while d and d != ".":
+                out.add(d)
+                d = os.path.dirname(d)
+        return out
 
     def tree(self) -> dict:
         return self.genrun.snapshot(self.O) if self.O and os.path.isdir(self.O) else {}
@@ -330,6 +347,8 @@ class World:
                     self.viol("write-outside-output", rec["op"], f"{label}: derived-location run touched {p}, outside the working directory")
                     return
                 continue
+            if rec["op"] == "mkdir" and os.path.relpath(ap, self.P) in self._ancestors():
+                continue  # creating the missing parents of the location it was told to use
             if not (ap == O or ap.startswith(O + os.sep)):
                 self.viol("write-outside-output", rec["op"], f"{label}: mutating op {rec['op']} on {p}, outside output location {os.path.relpath(O, self.P)}")
                 return
